@@ -226,6 +226,18 @@ class Interp:
     def st_Expr(self, s):
         if isinstance(s.value, ast.Constant):
             return
+        if isinstance(s.value, ast.Yield):
+            # generator: the yielded values form a ghost output sequence
+            v = self.eval(s.value.value) if s.value.value is not None else NONE
+            self.ghost.setdefault('yielded', []).append(v)
+            return
+        if isinstance(s.value, ast.YieldFrom):
+            v = self.eval(s.value.value)
+            items = models.concrete_iter(self, v)
+            if items is None:
+                raise Unsupported('yield from a symbolic iterable')
+            self.ghost.setdefault('yielded', []).extend(items)
+            return
         self.eval(s.value)
 
     def st_Pass(self, s):
